@@ -24,6 +24,7 @@ import (
 	"encoding/json"
 	"fmt"
 	"net/url"
+	"strings"
 	"time"
 
 	rprof "github.com/metrico/qryn/reader/prof"
@@ -170,6 +171,9 @@ func genProfMerge(rt *rapid.T) profMergeCase {
 		if some("ehi", 50) {
 			add(tag("ehi"), inHi-r64(rt, 0, 3000, "ehiOff")*nsMs, inLo, inHi)
 		}
+		if m, ok := w.middleDay(); ok {
+			add(tag("mid"), m+r64(rt, 0, 3600, "midOff")*nsSec, inLo, inHi)
+		}
 		if some("pfb", 35) {
 			add(tag("pfb"), int64(dayOf(w.From)-1)*nsDay-nsMs-r64(rt, 0, 2*86400, "pfb")*nsSec, 1, w.From-nsMs)
 		}
@@ -283,6 +287,9 @@ func predProfMerge(c profMergeCase, o *evid.Obs) error {
 					return fmt.Errorf("%s: the %s total %d lacks %s, which lies inside that side's window [%s, %s)\n%s", ctxs, sd.name, sd.total, what, fmtTs(w.From), fmtTs(w.To), sqlDump(stmts))
 				}
 				o.Tag("found-inside")
+				if strings.HasPrefix(p.Sid, "mid") {
+					o.Tag("middle-day-only:found")
+				}
 				sawIn = sawIn || p.Sid == "s0"
 			case p.Ts < w.From || p.Ts > w.To:
 				if bit {
